@@ -71,6 +71,10 @@ def build(pattern, packets: list[bytes], rng: random.Random):
             p = bytearray(next(it))
             p[11] ^= 0x04
             segs.append(seg("corrupt", head=bytes(p)))
+        elif k == "Cs":                       # another damaged copy of one and the same packet (same identifier)
+            p = bytearray(packets[-1])
+            p[10 + rng.randrange(8)] ^= 1 << rng.randrange(8)
+            segs.append(seg("corrupt", head=bytes(p)))
         elif k.startswith("T"):
             p = next(it)
             lost = int(k[1:])
@@ -149,7 +153,9 @@ def bind(chk: Check, tier: str, seed: int):
     longs = [("V", f"Long{n}", "V", "V") for n in ((200, 10000, 100000) if tier != "thorough" else (200, 10000, 100000, 1000000))]
     longs += [("V", "Long10000m", "V", "V"), ("Long5000", "Nhalf", "V", "V"), ("V", "Long3000", "T15", "Long3000", "V", "V")]
     # long runs of valid packets behind a little noise: full-size reads with a partial packet pending
-    runs = [("Nfree1",) + ("V",) * 8, ("V", "Nfree21") + ("V",) * 7, ("T19",) + ("V",) * 8, ("V",) * 8]
+    runs = [("Nfree1",) + ("V",) * 8, ("V", "Nfree21") + ("V",) * 7, ("T19",) + ("V",) * 8, ("V",) * 8,
+            # the same packet arrives damaged again and again: every copy is refused, not only the first
+            ("V", "Cs", "Cs", "V", "Cs", "V"), ("Cs", "Cs", "Cs", "V", "V")]
     cutters = {"whole": lambda s: [s[i:i + 20000] for i in range(0, len(s), 20000)] or [s],
                "bytewise": lambda s: [s[i:i + 1] for i in range(len(s))],
                "split7": lambda s: [s[i:i + 7] for i in range(0, len(s), 7)],
